@@ -105,6 +105,7 @@ let run_solvef (line : string) : string =
            let pv t = if is_plain_var t then Some (var_ix t) else None in
            posts := !posts @ [PCmp (rel_of k, pv a, pv b)]
          | "conv" :: _ -> outside := true
+         | ("arith" | "elem" | "elemi" | "elemx") :: _ -> outside := true   (* arithmetic / element routes: oracle-only *)
          | ("solve" | "min" | "max") :: _ as e -> entry := e
          | ["lp"] -> lp := true
          | ["fp"] -> fp := true
@@ -159,6 +160,8 @@ let post (t : string list) : fprop option =
   | ["geq"; a; b] -> Some (mk_fgeq (parse_fv a) (parse_fv b))
   | ["gt"; a; b] -> Some (mk_fgt (parse_fv a) (parse_fv b))
   | ["eq"; a; b] -> Some (mk_feq (parse_fv a) (parse_fv b))
+  | ["add"; a; b; s] -> Some (mk_fadd (parse_fv a) (parse_fv b) (var_ix s))
+  | ["sub"; a; b; s] -> Some (mk_fsub (parse_fv a) (parse_fv b) (var_ix s))
   | _ -> None
 
 let fmt_dom_ints (e : int list) : string =
